@@ -4,8 +4,17 @@
    stringify  = JSON.stringify(x) and json(x): encoding/json over Map/Array/Nil.MarshalJSON   (Models/Json.v)
    parse      = JSON.parse: json.Unmarshal into interface{} followed by pugjs.Convert
    decode     = a JSON reader written in Gallina; valid_json = an independent recogniser of compact RFC 8259 JSON
-   dom_C12 d  = keys lower-case-initial (ASCII first byte, not A-Z) and pairwise distinct, |n| <= 2^53, text valid UTF-8 *)
-From PV Require Import Base.Bytes Models.Json Proofs.JsonProofs.
+   dom_C12 d  = keys lower-case-initial (ASCII first byte, not A-Z) and pairwise distinct, |n| <= 2^53, text valid UTF-8
+
+   and, for the process the texts are made in (Models/JsonHist.v):
+   run_data d steps = the heap machine that follows the Go code: variables hold references, JSON.parse allocates
+                      a new object on every call, mutations (assignment into a map, push / unshift / pop / shift /
+                      splice on an array, at any depth) happen in place; steps = any history of HConv / HParse /
+                      HMut / HOut, i.e. any number of renders, templates, copies
+   spec_run j steps = value semantics on JSON trees: every variable owns its tree
+   pristine_run     = which outputs are of a value nothing was done to
+   run_memo         = the same machine with a table text -> parsed object *)
+From PV Require Import Base.Bytes Models.Json Models.JsonHist Proofs.JsonProofs Proofs.JsonHistProofs.
 
 (* the round trip is a theorem, not an assumption: canonical trees of ANY nesting and size, strings with quotes,
    backslashes, control characters, < > &, U+2028/9, 2-, 3- and 4-byte sequences *)
@@ -118,3 +127,53 @@ Theorem C12_unsorted_tree_refuted :
   exists j, wf_jv j = false /\ decode (encode_go j) <> Some j /\ valid_json (encode_go j) = true.
 Proof. exact unsorted_tree_refuted. Qed.
 Print Assumptions C12_unsorted_tree_refuted.
+
+(* ---- parse and stringify inside a process: functions of their argument, for EVERY history *)
+
+(* one mutation of the domain on a template object of the domain: the object's JSON tree changes exactly as the
+   mutation says, and the object stays in the domain *)
+Theorem C12_mutation_commutes : forall op o, op_dom op = true -> goodb o = true ->
+  marshal (obj_apply op o) = jv_apply op (marshal o) /\ goodb (obj_apply op o) = true.
+Proof. exact mutation_commutes. Qed.
+Print Assumptions C12_mutation_commutes.
+
+(* whatever the history - copies parsed, assigned into, pushed onto, parsed again, in any order and number - every
+   text the process writes is Go's encoding of the tree that value semantics gives the variable: no mutation of
+   one copy is ever seen through another *)
+Theorem C12_history_refines : forall d steps, dom_C12 d = true -> steps_dom steps = true ->
+  run_data d steps = map (option_map encode_go) (spec_run (json_of d) steps []).
+Proof. exact history_refines. Qed.
+Print Assumptions C12_history_refines.
+
+(* ... each of these texts is a JSON text that decodes to that tree *)
+Theorem C12_history_outputs_read_back : forall d steps, dom_C12 d = true -> steps_dom steps = true ->
+  Forall2 reads_back_as (run_data d steps) (spec_run (json_of d) steps []).
+Proof. exact history_outputs. Qed.
+Print Assumptions C12_history_outputs_read_back.
+
+(* ... and the data itself, and every parse of its text, is written as THE text of the data, whatever happened
+   to other copies before *)
+Theorem C12_untouched_values_give_the_text : forall d steps, dom_C12 d = true -> steps_dom steps = true ->
+  Forall2 (fun (b : bool) o => b = true -> o = Some (stringify_data d)) (pristine_run steps []) (run_data d steps).
+Proof. exact pristine_text. Qed.
+Print Assumptions C12_untouched_values_give_the_text.
+
+(* non-vacuity: a history with assignments, pushes at depth, two renders, a copy of a mutated copy *)
+Theorem C12_history_inhabited :
+  (dom_C12 ex_hist_data = true /\ steps_dom ex_steps = true /\ steps_fit ex_steps [] (json_of ex_hist_data) = true) /\
+  pristine_run ex_steps [] = [false; true; true; false; false; false] /\
+  nth_error (run_data ex_hist_data ex_steps) 0 =
+    Some (Some (B "{""limit"":25,""opts"":{""debug"":false,""ttl"":[5]},""renderedBy"":""widget"",""tags"":[""a"",""b"",""seen""]}")) /\
+  nth_error (run_data ex_hist_data ex_steps) 1 = Some (Some (stringify_data ex_hist_data)).
+Proof. exact ex_hist_inhabited. Qed.
+Print Assumptions C12_history_inhabited.
+
+(* the hypothesis "JSON.parse allocates" is forced: the same machine with a table of parsed texts hands the
+   object that was assigned into out again, and an untouched parse of the text of {} is written as {"k":0} *)
+Theorem C12_parse_table_refuted :
+  exists d steps, dom_C12 d = true /\ steps_dom steps = true /\ steps_fit steps [] (json_of d) = true /\
+                  pristine_run steps [] = [true] /\
+                  run_data d steps = [Some (stringify_data d)] /\
+                  run_memo d steps = [Some (B "{""k"":0}")] /\ stringify_data d = B "{}".
+Proof. exact memo_table_refuted. Qed.
+Print Assumptions C12_parse_table_refuted.
